@@ -6,7 +6,7 @@ PROP = "C09"
 PROPS_FILE = "props/C09.v"
 COQ_FILES = ["gen/Gen.v", "model/Teardown.v", "proofs/TeardownProofs.v", "proofs/TeardownHsProofs.v",
              "proofs/TeardownEstProofs.v", "proofs/TeardownSdProofs.v", "proofs/TeardownClose2Proofs.v",
-             "proofs/TeardownT1Proofs.v", "proofs/TeardownMainProofs.v", "props/C09.v"]
+             "proofs/TeardownT1Proofs.v", "proofs/TeardownDlProofs.v", "proofs/TeardownMainProofs.v", "props/C09.v"]
 TRUSTED_BASE = [
     "Coq 8.16.1 kernel incl. its bytecode VM: the reachable sets of the finite model are computed and their closure / "
     "per-state / rank certificates are checked by vm_compute inside proofs (vm_cast_no_check, re-checked by the kernel at Qed); "
@@ -25,7 +25,7 @@ TRUSTED_BASE = [
 ASSUMPTIONS = [
     "families: phase (handshake | established | shutdown) x one injection (Close, Abort, conn.Read fails, conn.Write fails, "
     "inbound ABORT) happening at most once at any point x one blocked caller kind (connect wait always during the handshake); "
-    "a further Close() racing with everything in td_families_close2; callers do not interact with each other except through "
+    "a further Close() racing with everything in td_families_close2; an armed read deadline with nobody reading in td_families_deadline; callers do not interact with each other except through "
     "the association (one caller kind per family keeps the sets small: 3 300 .. 40 000 states)",
     "T1 exhaustion during the handshake is covered (td_families_t1 is part of td_all_families); the faithful model refuted "
     "termination there twice, both refutations were reproduced on the implementation and repaired in /repo (D27 aeda016, "
